@@ -89,12 +89,16 @@ def setup(ctx):
     from flow.record import RecordDescriptor
 
     tmp = tempfile.mkdtemp(prefix="frv-c06-", dir=os.environ.get("VERIF_TMP", "/var/tmp"))
-    os.makedirs(os.path.join(tmp, "trip"))
+    token = "trip%08x" % (fp64("c06-trip", tmp, os.getpid()) & 0xFFFFFFFF)
+    os.makedirs(os.path.join(tmp, token))
     os.makedirs(os.path.join(tmp, "files"))
     st = ctx.state
     st["tmp"] = tmp
-    st["trip"] = os.path.join(tmp, "trip", "T")
-    st["trip_marker"] = os.path.join(tmp, "trip")
+    st["trip"] = os.path.join(tmp, token, "T")
+    # the token alone marks a tripwire path: a type name has its '/' replaced by '_' before it reaches the template, so
+    # a payload delivered as type name opens '_var_tmp_..._<token>_T' relative to the working directory
+    st["trip_marker"] = token
+    st["trip_mangled"] = os.path.abspath(st["trip"].replace("/", "_"))
     st["pools"] = build_pools(st["trip"])
     st["uniq"] = 0
     st["twins"] = {}
@@ -122,6 +126,8 @@ def teardown(ctx):
         st["spy"].uninstall()
     if "reach" in st:
         st["reach"].stop()
+    if "trip_mangled" in st and os.path.exists(st["trip_mangled"]):
+        os.unlink(st["trip_mangled"])
     if "tmp" in st:
         shutil.rmtree(st["tmp"], ignore_errors=True)
 
@@ -600,12 +606,13 @@ def execute(ctx, case):
             ctx.note_add("import_other:" + ev[7:][:60])
     if trips:
         ctx.violation(None, "tripwire: %s fired while a definition was processed" % trips[0][0], detail=dict(detail_def, events=trips[:5]))
-    if os.path.exists(st["trip"]):
-        try:
-            os.unlink(st["trip"])
-        except OSError:
-            pass
-        ctx.violation(None, "tripwire file was created while a definition was processed", detail=detail_def)
+    for tp in (st["trip"], st["trip_mangled"]):
+        if os.path.exists(tp):
+            try:
+                os.unlink(tp)
+            except OSError:
+                pass
+            ctx.violation(None, "tripwire file was created while a definition was processed", detail=dict(detail_def, file=tp))
     ctx.event("tripwire_windows")
 
     # accept / reject versus the reference grammar
